@@ -71,6 +71,7 @@ type Exec struct {
 	usedSpecs map[string]bool
 	replay    *ReplayInfo
 	curCall   *ssa.CallCommon
+	chanElem  map[string]types.Type // element type per "lastsent:key" / "lastrecv:key"
 	elemInfo   map[string]elemRef   // element address -> (backing array, index)
 	appendInfo map[string]*appendRec // backing array allocated by append -> its sources
 }
@@ -726,7 +727,7 @@ func (x *Exec) enterBlock(st *State, b *ssa.BasicBlock, pred *ssa.BasicBlock) {
 		x.havocLoop(st, fr, li)
 		// per-iteration ghost counters (sends per stream, monitor writes) start at zero
 		for k := range st.ghostInt {
-			if strings.HasPrefix(k, "sent:") || strings.HasPrefix(k, "writes:") || strings.HasPrefix(k, "rtrue:") || strings.HasPrefix(k, "rerr:") {
+			if strings.HasPrefix(k, "sent:") || strings.HasPrefix(k, "recv:") || strings.HasPrefix(k, "writes:") || strings.HasPrefix(k, "rtrue:") || strings.HasPrefix(k, "rerr:") {
 				st.ghostInt[k] = "0"
 			}
 		}
